@@ -1,5 +1,6 @@
 import SoundeventModel.Ops.Common
 import SoundeventModel.Affinity
+import SoundeventModel.AffinityCall
 namespace SE.Ops.C06
 open Lean SE SE.Affinity
 
@@ -34,8 +35,37 @@ def verdictJ (v : ContractVerdict) : Json :=
   Json.mkObj [("sane", boolJ v.sane), ("inter_le_min", boolJ v.interLeMin), ("symm", boolJ v.symm),
     ("self", boolJ v.self), ("disjoint", boolJ v.disjoint)]
 
+/-- an argument of a call: `{"geom": g}` or `{"num": "n/d"}` -/
+def getArg (j : Json) : Except String Arg :=
+  match fldOpt j "geom", fldOpt j "num" with
+  | some g, _ => do return .geom (← getGeom g)
+  | none, some x => do return .num (← getRat x)
+  | none, none => .error "C06: an argument is {\"geom\": ...} or {\"num\": ...}"
+
+def getNamed (j : Json) : Except String (String × Arg) := do
+  match ← getArr j with
+  | [n, v] => return (← n.getStr?, ← getArg v)
+  | _ => .error "C06: a keyword argument is [name, arg]"
+
+/-- a signature: `[[name, default | null], ...]` -/
+def getSig (j : Json) : Except String Sig := do
+  (← getArr j).mapM fun p => do
+    match ← getArr p with
+    | [n, .null] => return (← n.getStr?, none)
+    | [n, d] => return (← n.getStr?, some (← getArg d))
+    | _ => .error "C06: a parameter is [name, default | null]"
+
 def handle (op : String) (a : Json) : Except String Json := do
   match op with
+  | "bind" =>
+    -- follow-up 3: Python's argument binding on the signature table the harness extracted by introspection
+    let sig ← getSig (← fld a "sig")
+    let pos ← (← fldArr a "pos").mapM getArg
+    let kw ← (← fldArr a "kw").mapM getNamed
+    match bindCall sig pos kw with
+    | .ok c => return Json.mkObj [("val", Json.mkObj [("g1", geomJ c.1), ("g2", geomJ c.2.1), ("tb", ratJ c.2.2.1),
+        ("fb", ratJ c.2.2.2)]), ("wellformed", boolJ (WellFormedSig sig))]
+    | .error e => return Json.mkObj [("raise", Json.str e.name), ("wellformed", boolJ (WellFormedSig sig))]
   | "plan" =>
     let g1 ← getGeom (← fld a "g1")
     let g2 ← getGeom (← fld a "g2")
